@@ -20,6 +20,7 @@ def fn1 (name : String) : Val → Val :=
     | "add", .int i => .int (i + k)
     | "mul", .int i => .int (i * k)
     | "mod", .int i => .int (if k = 0 then i else i.emod k)
+    | "div", .int i => .int (if k = 0 then i else i / k)
     | "const", _ => .int k
     | "neg", .int i => .int (-i)
     | "fst", .pair a _ => a
